@@ -96,6 +96,21 @@ func runC17(res *Result, tier string, driver string) {
 	id := 0
 	// ---- 1. registration orders of rename chains --------------------------------
 	chainTypes := []error{&MigC1{}, &MigC2{}, &MigC3{}, &MigC4{}}
+	// the Go names of the chain types, read once up front: fullName swaps the migration registry,
+	// which must not happen between a registration and the observation that follows it
+	var chainP, chainT []string
+	for _, ct := range chainTypes {
+		p, t := fullName(ct)
+		chainP, chainT = append(chainP, p), append(chainT, t)
+	}
+	nameOf := func(e error) (string, string) {
+		for i, ct := range chainTypes {
+			if ct == e {
+				return chainP[i], chainT[i]
+			}
+		}
+		return fullName(e)
+	}
 	origPkg, origTyp := "old/pkg", "*pkg.Orig"
 	maxLen := 3
 	if tier == "thorough" {
@@ -111,46 +126,59 @@ func runC17(res *Result, tier string, driver string) {
 			if i == 0 {
 				decls[i] = decl{origPkg, origTyp, chainTypes[0]}
 			} else {
-				p, t := fullName(chainTypes[i-1])
+				p, t := chainP[i-1], chainT[i-1]
 				decls[i] = decl{p, t, chainTypes[i]}
 			}
 		}
 		for _, perm := range permutations(n) {
-			restore := errbase.TestingWithEmptyMigrationRegistry()
-			var regSX []SX
-			panicked := false
-			for _, j := range perm {
-				d := decls[j]
-				np, nt := fullName(d.newT)
-				regSX = append(regSX, L(Str(d.prevPkg+"/"+d.prevTyp), Str(np+"/"+nt)))
-				if ok, _ := catch(func() { errbase.RegisterTypeMigration(d.prevPkg, d.prevTyp, d.newT) }); !ok {
-					panicked = true
+			for _, useBetween := range []bool{false, true} {
+				restore := errbase.TestingWithEmptyMigrationRegistry()
+				var regSX []SX
+				panicked := false
+				for _, j := range perm {
+					d := decls[j]
+					np, nt := nameOf(d.newT)
+					regSX = append(regSX, L(Str(d.prevPkg+"/"+d.prevTyp), Str(np+"/"+nt)))
+					if ok, _ := catch(func() { errbase.RegisterTypeMigration(d.prevPkg, d.prevTyp, d.newT) }); !ok {
+						panicked = true
+					}
+					if useBetween {
+						// the program uses its error types between two registrations (registering a
+						// decoder under GetTypeKey, encoding a value): anything memoized about a type
+						// must follow the registrations that come later
+						for i := 0; i < n; i++ {
+							catch(func() {
+								_ = errbase.GetTypeKey(chainTypes[i])
+								_ = errbase.EncodeError(context.Background(), chainTypes[i])
+							})
+						}
+					}
 				}
-			}
-			var keys, got []SX
-			allRoot := true
-			for i := 0; i < n; i++ {
-				np, nt := fullName(chainTypes[i])
-				keys = append(keys, Str(np+"/"+nt))
-				k := string(errbase.GetTypeKey(chainTypes[i]))
-				got = append(got, Str(k))
-				if k != origPkg+"/"+origTyp {
-					allRoot = false
+				var keys, got []SX
+				allRoot := true
+				for i := 0; i < n; i++ {
+					np, nt := chainP[i], chainT[i]
+					keys = append(keys, Str(np+"/"+nt))
+					k := string(errbase.GetTypeKey(chainTypes[i]))
+					got = append(got, Str(k))
+					if k != origPkg+"/"+origTyp {
+						allRoot = false
+					}
 				}
-			}
-			restore()
-			c := &Case{ID: fmt.Sprintf("g%d", id), Cmd: L(Sym("mig"), L(regSX...), L(keys...))}
-			id++
-			if panicked {
-				c.Real = L(Sym("res"), L(Sym("panic")))
-			} else {
-				c.Real = L(Sym("res"), L(Sym("resolve"), L(got...)))
-			}
-			cases = append(cases, c)
-			res.OracleEvals["C17.order_independent"]++
-			if panicked || !allRoot {
-				res.fail(c, "C17.order_independent", fmt.Sprintf("chain of %d, registration order %v: keys %v (panic=%v), want all %s/%s",
-					n, perm, got, panicked, origPkg, origTyp), "C17:order")
+				restore()
+				c := &Case{ID: fmt.Sprintf("g%d", id), Cmd: L(Sym("mig"), L(regSX...), L(keys...))}
+				id++
+				if panicked {
+					c.Real = L(Sym("res"), L(Sym("panic")))
+				} else {
+					c.Real = L(Sym("res"), L(Sym("resolve"), L(got...)))
+				}
+				cases = append(cases, c)
+				res.OracleEvals["C17.order_independent"]++
+				if panicked || !allRoot {
+					res.fail(c, "C17.order_independent", fmt.Sprintf("chain of %d, registration order %v (types used between registrations: %v): keys %v (panic=%v), want all %s/%s",
+						n, perm, useBetween, got, panicked, origPkg, origTyp), "C17:order")
+				}
 			}
 		}
 		// the same target twice is rejected
